@@ -51,16 +51,23 @@ def stages(prog: Program) -> list[Stage]:
         if isinstance(fn, Part) and isinstance(fn.func, Func):
             kwargs = {**(kwargs or {}), **fn.kwargs}
             fn = fn.func
+        fused: list[str] = []
         if isinstance(fn, Func):
             name = fn.qual
         else:
-            # a lambda: the first package function entered after it
+            # a lambda: the package functions it calls directly (depth 1 of the enter/leave nesting); more than one means
+            # several rewrites share one traversal (a fused pass)
+            depth = 0
             for e2 in eff[i + 1:]:
                 if e2[0] == "enter":
-                    name = e2[1].split(".", 1)[1]
+                    if depth == 0 and e2[1].startswith("transforms."):
+                        fused.append(e2[1].split(".", 1)[1])
+                    depth += 1
+                elif e2[0] == "leave":
+                    depth -= 1
+                elif e2[0] == "transform" and depth == 0:
                     break
-                if e2[0] == "transform":
-                    break
+            name = fused[0] if fused else None
         if name is None:
             name = tagof(fn)
         fdef = prog.modules["transforms"].functions.get(name) if "transforms" in prog.modules else None
@@ -71,7 +78,12 @@ def stages(prog: Program) -> list[Stage]:
                 lam_kwargs[f"#{j + 1}"] = norm(a)
         kw = {k: tagof(v) for k, v in (kwargs or {}).items()}
         kw.update(lam_kwargs)
-        result.append(Stage(len(result), name, fdef, kw, site))
+        idx = len({st_.index for st_ in result})
+        result.append(Stage(idx, name, fdef, kw, site))
+        for extra in fused[1:]:
+            # the other rewrites of a fused pass: same position in the chain
+            if "transforms" in prog.modules and extra in prog.modules["transforms"].functions and extra != name:
+                result.append(Stage(idx, extra, prog.modules["transforms"].functions[extra], dict(kw), site))
     if len(result) < 10:
         raise AnalysisError(f"pipeline: only {len(result)} stages found in _transform")
     _cache[key] = result
